@@ -436,8 +436,44 @@ func genC03(e *emitter, r *rng, thorough bool) {
 			}
 		}
 	}
-	// r + N alias below P: needs x(R) < P - N; search small multiples for such an R is infeasible,
-	// so test the rejection side only (r' = r + N with r tiny)
+	// signatures whose R has an x-coordinate in [N, P): r = x(R) - N is tiny.  Take the curve points with
+	// x = N + t, pick s and e freely and solve for the key: Q = r^-1 (s R - e G).  Verify must ACCEPT
+	// (x(R) mod N = r) — and reject the same (r,s) for the R with x = r when that is a different point.
+	nrx := 4
+	if thorough {
+		nrx = 30
+	}
+	found := 0
+	for t := int64(1); t < 400 && found < nrx; t++ {
+		xR := new(big.Int).Add(curveN, big.NewInt(t))
+		if xR.Cmp(curveP) >= 0 {
+			break
+		}
+		R, err := bec.ParsePubKey(append([]byte{byte(2 + r.intn(2))}, pad32(xR.Bytes())...), bec.S256())
+		if err != nil {
+			continue
+		}
+		found++
+		rr := big.NewInt(t)
+		ss := modN(new(big.Int).SetBytes(r.bytes(32)))
+		if ss.Sign() == 0 {
+			ss.SetInt64(7)
+		}
+		hh := r.bytes(32)
+		ee := modN(new(big.Int).SetBytes(hh))
+		sx, sy := bec.S256().ScalarMult(R.X, R.Y, ss.Bytes())
+		ex, ey := bec.S256().ScalarBaseMult(modN(new(big.Int).Neg(ee)).Bytes())
+		tx, ty := bec.S256().Add(sx, sy, ex, ey)
+		qx, qy := bec.S256().ScalarMult(tx, ty, invN(rr).Bytes())
+		qq := pt{qx, qy}
+		if qq.isInf() {
+			continue
+		}
+		emitV("cons.rx>=N", qq, hh, rr, ss)
+		emitV("cons.rx>=N.twin", qq, hh, rr, new(big.Int).Sub(curveN, ss))
+		emitV("cons.rx>=N.r+N", qq, hh, xR, ss) // r itself out of range: must be rejected
+	}
+	// (r' = r + N with r tiny and an unrelated key)
 	q := mulG(big.NewInt(7))
 	emitV("alias.tiny", q, r.bytes(32), new(big.Int).Add(curveN, one), one)
 }
